@@ -7,14 +7,17 @@
 #include <string.h>
 #include "mem.h"   /* Lib/utils/mem.h: extern m_memhook_t memhook */
 
-static long vp_outstanding, vp_allocs, vp_frees;
+#ifndef VP_TLS
+#define VP_TLS          /* drivers that replay on several threads at once define it as __thread before including */
+#endif
+static VP_TLS long vp_outstanding, vp_allocs, vp_frees;
 
 #define VP_WATCH_MAX 4096
-static void *vp_watch_ptr[VP_WATCH_MAX];
-static int vp_watch_freed[VP_WATCH_MAX];
-static int vp_nwatch;
+static VP_TLS void *vp_watch_ptr[VP_WATCH_MAX];
+static VP_TLS int vp_watch_freed[VP_WATCH_MAX];
+static VP_TLS int vp_nwatch;
 
-static void *vp_last_alloc; static size_t vp_last_size;
+static VP_TLS void *vp_last_alloc; static VP_TLS size_t vp_last_size;
 static void (*vp_free_cb)(void *p);
 static void *vp_malloc(size_t n) { void *p = malloc(n ? n : 1); if (p) { vp_outstanding++; vp_allocs++; vp_last_alloc = p; vp_last_size = n; } return p; }
 static void *vp_calloc(size_t a, size_t b) { void *p = calloc(a ? a : 1, b ? b : 1); if (p) { vp_outstanding++; vp_allocs++; vp_last_alloc = p; vp_last_size = a * b; } return p; }
